@@ -510,7 +510,7 @@ class LifeCheckBase(Check):
         try:
             fn = est.fit if op["op"] == "fit" else est.partial_fit
             if w is not None:
-                fn(X, y, w)
+                fn(X, y, sample_weight=w)  # by keyword: wrappers mirror the wrapped estimator's signature
             else:
                 fn(X, y)
         finally:
@@ -743,7 +743,7 @@ class C13Check(LifeCheckBase):
         _FAULT["armed"] = bool(op.get("fail"))  # the reference meets the same collaborator failure
         try:
             if ww is not None:
-                inner.fit(Xw, yw, ww)
+                inner.fit(Xw, yw, sample_weight=ww)
             else:
                 inner.fit(Xw, yw)
         except Exception:
